@@ -1811,6 +1811,9 @@ func (kmc *KeystoreManagerForPoC) ChangePrivPassphrase(oldPrivPass, newPrivPass 
 		addrManager.masterKeyPriv = newMasterPrivKey
 		addrManager.privPassphraseSalt = passphraseSalt
 		addrManager.hashedPrivPassphrase = hashedPassphrase
+		if !addrManager.unlocked {
+			addrManager.masterKeyPriv.Zero()
+		}
 	}
 	return nil
 }
